@@ -13,7 +13,7 @@ sys.path.insert(0, os.path.join(os.path.dirname(os.path.dirname(os.path.abspath(
 import numpy as np
 from tools import vlib
 from tools.vlib import d2tok, tok2d
-import femmio, gen, fem_oracle
+import femmio, gen, fem_oracle, cuthill_tie
 from runner import Run
 from checks import C03
 
@@ -242,6 +242,7 @@ def main(argv):
                         if not (v <= 1e-6):
                             ck.violation("true-residual", "PCGSolve returned with true relative residual %.3g" % v, dict(files=run.files(), log=l))
             sol = femmio.read_solution(run.solution_path(), "h")
+            cuthill_tie.tie(ck, stats, mx, run, sol, "hsolver")
             stats["nodes"] += len(sol["nodes"])
             if getattr(p, "has_ext", False):
                 stats["external_region_problems"] = stats.get("external_region_problems", 0) + 1
